@@ -145,3 +145,9 @@ CHECK["suites"].append(dict(siggen.suite(siggen.oracle_c01),
 MANIFEST["level_note"] += (" Suite `signed` (oracle-free, no model): correctly signed queries incl. stale-time (BADTIME) ones around the "
                            "size limits, both transports; requirement: two responses, never a panic.")
 
+
+# pkg-sproof: the signing TSIG modes (finish_with_mac in response mode) are now under a theorem, append-only
+CHECK["theorems"] = list(CHECK["theorems"]) + ['c01_no_panic_tsig']
+MANIFEST["level_note"] += (" `c01_no_panic_tsig` (Proofs/SignFinishP.v, SignSerP.v, SignTopP.v): the extended composed model never "
+                           "panics for EVERY verifier (signed BADTIME responses; verified requests answered NOTIMP / REFUSED / SERVFAIL / "
+                           "FORMERR with a signed TSIG record) and every hmac returning an octet string of the algorithm's output size.")
